@@ -16,6 +16,10 @@ B1: TLC is the case generator: it chooses the program (the body of every lifecyc
     and returns the events recorded through context.effect closures.  Any difference is a violation, except
     the one freedom the statement leaves: what the agent does *after* a handler failed (FailPolicy in the
     spec), which is only MODEL-DRIFT.
+    Directed family resume_stop: behaviours that end with `resume i ; stop` (the resumed handler changing no lane) are
+    replayed with both stimuli delivered at once (the future completes as the lane inputs end, no quiescence in
+    between).  The model allows StimResume ; StimStop or StimStop alone (the pending future is dropped); the real
+    select is random, so every case is repeated; anything else - in particular a handler after on_stop - is a violation.
 """
 import json, os, random, re
 from vlib import core
@@ -171,6 +175,95 @@ def replay_cases(out, reps, wd, tag, rng, what, stats, all_schedules=False):
     return st
 
 
+# ---- directed family: the end of the lane inputs arrives together with a completed suspended future -------------
+# events that show that a handler ran without changing a lane: an effect, a read, the entry of the command handler
+QUIET = {"eff", "get", "snap", "cmd"}
+RS_REPEAT = 10
+RS_MAX = 60          # behaviours per enumeration / simulation that are turned into resume_stop cases
+
+
+def resume_stop_variants(reps):
+    """From the behaviours TLC generated: those that end with `resume i` (StimResume) followed by `stop` (StimStop), where
+    no handler fails and the resumed handler changes no lane state (all its events are QUIET - so StimStop taken directly
+    from the state before the resume, with the pending future dropped, yields exactly the events of the stop act).
+    The two stimuli are merged into one `resume_stop`: the model allows A = StimResume ; StimStop and B = StimStop."""
+    res = []
+    for rep in reps:
+        a = rep["acts"]
+        if len(a) < 3 or a[-1]["k"] != "stop" or a[-2]["k"] != "resume":
+            continue
+        if any(x.get("fl") == 1 for x in a) or a[-2]["fin"] != "run":
+            continue
+        if any(e[0] not in QUIET for e in a[-2]["ev"]) or ["stop"] not in a[-1]["ev"]:
+            continue
+        res.append((rep, a[-2]["ev"] + a[-1]["ev"], a[-1]["ev"], a[-1]["fin"]))
+    return res
+
+
+def rs_case(cid, rep, alt_a, alt_b, fin, sched):
+    acts = [dict(x) for x in rep["acts"][:-2]]
+    acts.append({"k": "resume_stop", "l": "", "x": rep["acts"][-2]["x"], "y": 0, "fl": 0, "alts": {"A": alt_a, "B": alt_b},
+                 "fin": fin})
+    return {"id": cid, "cfg": {"prog": rep["prog"], "m0": rep["m0"], "buf": sched["buf"], "drain": sched["drain"],
+                                "batch": False}, "acts": acts}
+
+
+def rs_send(c):
+    return {"id": c["id"], "cfg": c["cfg"], "acts": [rp.inputs(a, INPUT_KEYS - {"fl"}) for a in c["acts"]]}
+
+
+def rs_verdict(case, result):
+    """-> ("A" | "B" | "prefix" | None, detail).  None: the property is violated."""
+    if result.get("panic"):
+        return None, "panic in the harness or the code under test: %s" % result["panic"]
+    exp, obs = case["acts"], result.get("obs", [])
+    if len(obs) != len(exp):
+        return None, "the harness answered %d of %d stimuli" % (len(obs), len(exp))
+    if rp.first_diff(exp[:-1], obs[:-1], INPUT_KEYS) is not None:
+        return "prefix", "the stimuli before resume_stop already differ (the same prefix is judged by the ordinary family)"
+    last, o = exp[-1], obs[-1]
+    for name in ("A", "B"):
+        if o.get("ev") == last["alts"][name] and o.get("fin") == last["fin"]:
+            return name, ""
+    ev, b = o.get("ev") or [], last["alts"]["B"]
+    if ["stop"] in ev and ev[ev.index(["stop"]) + 1:] != b[b.index(["stop"]) + 1:]:
+        return None, "what ran after the entry of on_stop is not the body of on_stop: %s" % json.dumps(ev[ev.index(["stop"]) + 1:])
+    return None, "neither 'completed handler, then on_stop' nor 'on_stop alone (future dropped)'"
+
+
+def resume_stop_cases(out, reps, wd, tag, rng, what, stats):
+    var = resume_stop_variants(reps)
+    if len(var) > RS_MAX:
+        var = rng.sample(var, RS_MAX)
+    scheds = [s for s in SCHEDULES if not s["batch"]]
+    cases = [rs_case("%s.%d.%d.%d" % (tag, i, j, n), rep, ea, eb, fin, s)
+             for i, (rep, ea, eb, fin) in enumerate(var) for j, s in enumerate(scheds) for n in range(RS_REPEAT)]
+    if not cases:
+        return 0
+    results = rp.run_cases("h_runtime", "handlers", [rs_send(c) for c in cases], wd, tag=tag, input_keys=None, strip=False)
+    bad = set()
+    for c, r in zip(cases, results):
+        v, detail = rs_verdict(c, r)
+        stats["rs_runs"] = stats.get("rs_runs", 0) + 1
+        if v is not None:
+            stats["rs_" + v] = stats.get("rs_" + v, 0) + 1
+            continue
+        stats["rs_rejected"] = stats.get("rs_rejected", 0) + 1
+        key = c["id"].rsplit(".", 2)[0]
+        if key in bad or stats.get("rs_reported", 0) >= MAX_REPORT:
+            continue
+        bad.add(key)
+        stats["rs_reported"] = stats.get("rs_reported", 0) + 1
+        last = c["acts"][-1]
+        out.violation("%s: case %s: a suspended future completes as the lane inputs end (resume_stop %d): the model allows %s "
+                      "or %s -> %s, real code gave %s; %s" % (
+                          what, c["id"], last["x"], json.dumps(last["alts"]["A"]), json.dumps(last["alts"]["B"]), last["fin"],
+                          json.dumps((r.get("obs") or [None])[-1]), detail),
+                      {"component": what, "family": "resume_stop", "case": c, "observed": r})
+    stats["rs_behaviours"] = stats.get("rs_behaviours", 0) + len(var)
+    return len(var)
+
+
 def sim_states(r):
     m = re.search(r"The number of states generated: (\d+)", r.stdout)
     return int(m.group(1)) if m else 0
@@ -210,6 +303,7 @@ def run(tier, out):
         core.log("[C06] exhaustive %-12s: %7d states %7d transitions depth %3d (%.0fs); %5d behaviours -> %5d runs: "
                  "conform=%d drift=%d rejected=%d" % (name, r.distinct, r.generated, r.depth, r.wall, len(reps), st["cases"],
                                                       st["conform"], st["drift"], st["rejected"]))
+        resume_stop_cases(out, reps, wd, "rs_" + name, rng, "Handlers[%s]" % name, stats)
         if sampled < 2 and reps:
             out.sample(compact(max(reps[:400], key=lambda x: sum(len(a["ev"]) for a in x["acts"]))))
             sampled += 1
@@ -236,6 +330,14 @@ def run(tier, out):
     core.log("[C06] simulation (20 shapes, 4 stimuli): %d behaviours (%d distinct), %d states generated (%.0fs) -> %d runs: "
              "conform=%d drift=%d rejected=%d" % (len(r.tagged["REPLAY"]), len(reps), sgen, r.wall, st["cases"], st["conform"],
                                                   st["drift"], st["rejected"]))
+    resume_stop_cases(out, reps, wd, "rs_sim", rng, "Handlers[simulation]", stats)
+    core.log("[C06] stop together with a completed suspended future (resume_stop): %d behaviours x %d non-batch schedules x %d "
+             "repeats = %d runs: 'completed handler, then on_stop' %d, 'on_stop alone (future dropped)' %d, rejected %d%s%s" % (
+                 stats.get("rs_behaviours", 0), len([s for s in SCHEDULES if not s["batch"]]), RS_REPEAT, stats.get("rs_runs", 0),
+                 stats.get("rs_A", 0), stats.get("rs_B", 0), stats.get("rs_rejected", 0),
+                 (", prefix differed %d" % stats["rs_prefix"]) if stats.get("rs_prefix") else "",
+                 "".join("; alternative %s was never observed" % n for n in ("A", "B")
+                         if stats.get("rs_runs") and not stats.get("rs_" + n))))
     if reps:
         out.sample(compact(max(reps[:300], key=lambda x: sum(len(a["ev"]) for a in x["acts"]))))
 
@@ -245,6 +347,9 @@ def run(tier, out):
             simulation_states_generated=sgen, behaviours_generated=behaviours, distinct_programs=len(programs),
             agent_runs=stats.get("cases", 0), stimuli_replayed=stats.get("steps", 0), events_compared=stats.get("events", 0),
             model_drift=stats.get("drift", 0),
+            resume_stop_behaviours=stats.get("rs_behaviours", 0), resume_stop_runs=stats.get("rs_runs", 0),
+            resume_stop_handler_then_stop=stats.get("rs_A", 0), resume_stop_stop_alone=stats.get("rs_B", 0),
+            resume_stop_rejected=stats.get("rs_rejected", 0),
             rejected_runs_not_reported=stats.get("further_rejected_runs_not_reported", 0),
             action_coverage={a: {"distinct": d, "taken": t} for a, (d, t) in sorted(cov.items())},
             actions_never_taken=never, exhaustive=True,
@@ -263,11 +368,44 @@ def run(tier, out):
         out.notes.append("actions never taken: %s" % never)
 
 
+def replay_resume_stop(path, case, wd):
+    n = 3 * RS_REPEAT          # the select of the event loop is random: repeat
+    send = [dict(rs_send(case), id="%s.r%d" % (case["id"], i)) for i in range(n)]
+    res = rp.run_cases("h_runtime", "handlers", send, wd, tag="replay", input_keys=None, strip=False)
+    pre = {"prog": case["cfg"]["prog"], "m0": case["cfg"]["m0"], "acts": case["acts"][:-1]}
+    print(json.dumps(compact(pre), indent=1)[:6000])
+    last = case["acts"][-1]
+    print("schedule:", {k: case["cfg"][k] for k in ("buf", "drain", "batch")})
+    print("then stimulus resume_stop %d: suspended future %d completes and all lane inputs end at the same time\n"
+          "  allowed A (completed handler, then on_stop): %s -> %s\n  allowed B (on_stop alone, future dropped):   %s -> %s" % (
+              last["x"], last["x"], json.dumps(last["alts"]["A"]), last["fin"], json.dumps(last["alts"]["B"]), last["fin"]))
+    count, rejected = {}, []
+    for r in res:
+        v, detail = rs_verdict(case, r)
+        o = (r.get("obs") or [{}])[-1]
+        k = (str(v), json.dumps(o.get("ev")), o.get("fin"), detail)
+        count[k] = count.get(k, 0) + 1
+        if v is None:
+            rejected.append(r)
+    for (v, ev, fin, detail), c in sorted(count.items()):
+        print("%s observed %2d x %s -> %s   [%s]%s" % ("!!" if v == "None" else "  ", c, ev, fin,
+                                                      "REJECTED" if v == "None" else v, (" " + detail) if detail else ""))
+    if rejected and rejected[0].get("panic"):
+        print("panic:", rejected[0]["panic"])
+    if not rejected:
+        print("every one of %d runs is one of the two allowed alternatives" % n)
+        return 0
+    print("VIOLATION property=%s replay=%s" % (PROP, path))
+    return 1
+
+
 def replay(path, out):
     wd = core.workdir(PROP + "_replay")
     obj = json.load(open(path))["replay"]
     case = obj["case"]
     core.build_harness("h_runtime", "handlers")
+    if obj.get("family") == "resume_stop":
+        return replay_resume_stop(path, case, wd)
     send = [{"id": case["id"], "cfg": case["cfg"], "acts": [rp.inputs(a, INPUT_KEYS) for a in case["acts"]]}]
     res = rp.run_cases("h_runtime", "handlers", send, wd, tag="replay", input_keys=None, strip=False)[0]
     print(json.dumps(compact({"prog": case["cfg"]["prog"], "m0": case["cfg"]["m0"], "acts": case["acts"]}), indent=1)[:6000])
